@@ -48,6 +48,10 @@ def run(tier):
         for k in range(ng):
             lits = ck.rng.sample(HOSTILE_LITS, ck.rng.randint(1, 4))
             lex = gram.rand_lex(ck.rng, regdef_mode=ck.rng.choice(["single", "multi", "none"]), wide=True)
+            if k % 2 == 0:
+                # runes that a Go source file cannot hold verbatim everywhere (byte order mark, line separators, NEL): whatever the
+                # generator prints about them (comments, case labels) must stay compilable
+                lex.append((1, "!hz", [[('l', 0xFEFF)], [('l', 0x2028)], [('r', 0x85, 0xA0)], [('r', 0xFE00, 0xFEFF)]]))
             toks = gram.tokens_of_lex(lex)
             body = [(2, l) for l in lits] + toks[:2]
             syn = [("S0", [x], 0, 0) for x in body] + [("S0", [(0, "N1"), (2, lits[0])], 0, 0), ("N1", [(1, "empty")], 0, 0), ("N1", [(0, "N1"), body[0]], 0, 0)]
